@@ -151,7 +151,8 @@ def _allany(ex, args, is_all):
     if isinstance(a, VFunc) and a.kind == "comp":
         n = a.node
         g = n.generators[0]
-        it = ex.iter_view(ex.ev(g.iter, a.env)) if len(n.generators) == 1 else None
+        src = ex.ev(g.iter, a.env) if len(n.generators) == 1 else None
+        it = None if (src is None or isinstance(src, VSet)) else ex.iter_view(src)
         if isinstance(it, list):
             for item in it:
                 e2 = Env(a.env)
@@ -175,6 +176,16 @@ def _allany(ex, args, is_all):
                 ex.assume(r == z3.ForAll([i], z3.Implies(rng, body)))
             else:
                 ex.assume(r == z3.Exists([i], z3.And(rng, body)))
+            return VBool(r)
+        if isinstance(src, VSet) and not g.ifs:
+            def body_s(e2):
+                return None, [ex.truthy(ex.ev(n.elt, e2))]
+            x, _, terms = ex.for_arbitrary_element(src, g.target, a.env, body_s)
+            r = ex.fresh_const("all" if is_all else "any", z3.BoolSort())
+            if is_all:
+                ex.assume(r == z3.ForAll([x], z3.Implies(z3.Select(src.arr, x), terms[0])))
+            else:
+                ex.assume(r == z3.Exists([x], z3.And(z3.Select(src.arr, x), terms[0])))
             return VBool(r)
         raise OutOfSubset("all/any over unsupported iterable")
     if isinstance(a, (VTuple, VList)):
